@@ -366,6 +366,14 @@ func checkC10CLI(c c10CLI) (*core.Failure, string) {
 		nl := core.Entity{File: "sub/new-leaf.yaml", Subject: []core.RDN{{Key: "CN", Value: "CLI New Leaf"}}, Issuer: "root"}
 		c.W.Ents = append(c.W.Ents, nl)
 		d.Put(nl.File, nl.Render())
+	case "edit-old-mtime":
+		// the leaf's configuration changes but its file keeps its old modification time (restored from a backup, copied with
+		// its attributes, changed through a profile): only the stored hash gives the change away
+		e := &c.W.Ents[len(c.W.Ents)-1]
+		if fr := d.Files[e.File]; fr != nil {
+			e.Subject = append(e.Subject, core.RDN{Key: "L", Value: "edited quietly"})
+			d.Files[e.File] = &core.FileRec{Data: e.Render(), MTime: fr.MTime}
+		}
 	case "root-pem-deleted":
 		delete(d.Files, "root.pem")
 	case "root-cert-stripped":
@@ -569,7 +577,7 @@ func TestC10(t *testing.T) {
 		}
 		c.Answer = rapid.SampledFrom([]string{"y\n", "Y\n", " y \n", "n\n", "\n", "yes\n", "x\n", "", "y", "N\n", "\ty\r\n"}).Draw(t, "answer")
 		c.Edit = rapid.Bool().Draw(t, "edit")
-		c.Scenario = rapid.SampledFrom([]string{"", "", "edit-root-add-leaf", "sec1-key", "root-pem-deleted", "root-cert-stripped"}).Draw(t, "scenario")
+		c.Scenario = rapid.SampledFrom([]string{"", "", "edit-root-add-leaf", "sec1-key", "root-pem-deleted", "root-cert-stripped", "edit-old-mtime", "edit-old-mtime"}).Draw(t, "scenario")
 		if c.Scenario == "sec1-key" && rapid.Bool().Draw(t, "root-only") {
 			c.W.Ents = c.W.Ents[:1] // no other entity whose replacement would trigger the prompt anyway
 			c.Edit = false
